@@ -182,6 +182,8 @@ def run_check(check, tier, seed, budget_s=None, workers=None, nplans=None, selft
 
     stop = threading.Event()
     results = {}
+    # determinism sweep (tools/determinism_sweep.py): one line per plan, "<index> <digest of the outcome>"
+    digests = {} if os.environ.get("ALDYSIM_DIGEST_LOG") else None
     try:
         with cf.ThreadPoolExecutor(max_workers=workers) as ex:
             futs = {}
@@ -219,6 +221,8 @@ def run_check(check, tier, seed, budget_s=None, workers=None, nplans=None, selft
                         harness.append({"plan": i, "kind": "driver", "detail": traceback.format_exc()[-1500:]})
                         continue
                     evaluations += check.count_evaluations(plan, out)
+                    if digests is not None:
+                        digests[i] = outcome_digest(out)
                     check.update_stats(acc, plan, out)
                     if len(samples) < 3:
                         samples.append(check.sample_view(plan, out))
@@ -290,6 +294,10 @@ def run_check(check, tier, seed, budget_s=None, workers=None, nplans=None, selft
         segs = runner.segments_run
         runner.close()
     wall = time.monotonic() - t0
+    if digests is not None:
+        with open(os.environ["ALDYSIM_DIGEST_LOG"], "w") as f:
+            for i in sorted(digests):
+                f.write(f"{i} {digests[i]}\n")
     for k, h in sorted(known_hits.items()):
         print(f"KNOWN-FINDING: property={check.ID} {h['finding']['what']} (seen {h['n']}x)")
     ev = check.evidence(acc)
